@@ -69,6 +69,8 @@ func Bases() []*Schema {
 			dir("tag", []string{"FIELD_DEFINITION", "OBJECT", "ENUM_VALUE", "INTERFACE"}, argD("names", L(N("String")), []interface{}{"x", "y"}), argD("n", N("Int"), 3)),
 			// a directive that declares NO arguments, used once: any argument given to it is undeclared
 			dir("bare", []string{"OBJECT", "INTERFACE", "UNION", "ENUM", "ENUM_VALUE", "INPUT_OBJECT"}),
+			// defaulted arguments in front of one without a default (each default belongs to its own argument)
+			dir("mixed", []string{"VARIABLE_DEFINITION"}, argD("a", N("Int"), 1), argD("s", N("String"), "d"), arg("last", N("String")), arg("ratio", N("Float"))),
 		}},
 		// S2 custom root names through a schema block with a directive
 		{Blocks: []*SchemaBlock{{Query: "Qy", Mutation: "Mu", Dirs: []DirUse{du("onschema", "v", 1)}}},
